@@ -2,9 +2,10 @@
    Model: Model/TFree.v.  Only statements closed by `exact <lemma>`, Print Assumptions, and Examples.
    Not in this file: `drain_every_100` (the sequential generic-allocation counter, coordinator) and the
    quantitative "bounded memory" clause (measured by the scheduler harness, a test).
-   `tflist_nonempty_flag` is kept as an unproved statement in Proofs/TFreeOpen.v (see there). *)
+   `tflist_nonempty_flag` is proved in the corrected form explained at the theorem. *)
 From Coq Require Import NArith List Bool.
-From MiV Require Import Model.TFree Proofs.TFreeBase Proofs.TFreeInv Proofs.TFreeStep5 Proofs.TFreeProofs Proofs.TFreeSolo.
+From MiV Require Import Model.TFree Proofs.TFreeBase Proofs.TFreeInv Proofs.TFreeStep5 Proofs.TFreeProofs Proofs.TFreeSolo
+  Proofs.TFreeT.
 Import ListNotations.
 Local Open Scope N_scope.
 
@@ -16,6 +17,20 @@ Theorem no_delayed_flag_inv : forall s, reachable s -> exists c, s = Ok c /\ for
   /\ (forall t, (1 <= sum_fr (pw_fr p) (th_stk (gett c t)))%nat -> delayed_or_pending c p).
 Proof. exact no_delayed_flag_inv_P. Qed.
 Print Assumptions no_delayed_flag_inv.
+
+(* tflist_nonempty_flag.  DESIGN.md states it as "a non-empty page thread list => flag in {NO, NEVER}"; in that
+   form it is false for the code and the model: a thread that arrives while another one is inside the
+   DELAYED_FREEING window pushes on the page list, so the flag can also be DELAYED_FREEING.  What makes the
+   mechanism work is the statement below: a non-empty thread list under MI_USE_DELAYED_FREE only exists while a
+   block of the page is still on a delayed / pending list (mD) or the page's owner is between the flag reset of
+   _mi_free_delayed_block and the collect that follows it (mPh); in particular, whenever the owner is idle,
+   some block of the page is on a live heap's delayed list, so the owner will come back to the page. *)
+Theorem tflist_nonempty_flag : forall s, reachable s -> exists c, s = Ok c /\ forall p,
+  pg_tf (getp c p) <> [] -> pg_flag (getp c p) = UseD ->
+  (1 <= mD c (onp p) + mPh c p)%nat
+  /\ (th_stk (gett c (pg_tid (getp c p))) = [] -> delayed_or_pending c p).
+Proof. exact tflist_nonempty_flag_P. Qed.
+Print Assumptions tflist_nonempty_flag.
 
 (* from any reachable state in which all threads are idle, the owner's forced collect of heap h, run alone
    (`solo` = the deterministic run with the default choice), terminates, never errs, and yields: delayed list
